@@ -128,3 +128,23 @@ def is_sorted_labels(labels):
         return list(labels) == sorted(labels)
     except TypeError:
         return False
+
+
+def relayout(a):
+    """the same values in another memory layout, chosen deterministically from the shape: C order,
+    Fortran order, a strided view into a wider array, or the transposed view of a (columns x rows)
+    array -- what slicing, transposing or loading from MATLAB files hands to the library"""
+    a = np.asarray(a)
+    if a.ndim != 2 or a.size == 0:
+        return a
+    kind = (3 * a.shape[0] + a.shape[1]) % 4
+    if kind == 1:
+        return np.asfortranarray(a)
+    if kind == 2:
+        wide = np.zeros((a.shape[0], 2 * a.shape[1]), dtype=a.dtype)
+        wide[:, 1::2] = 1
+        wide[:, ::2] = a
+        return wide[:, ::2]
+    if kind == 3:
+        return np.ascontiguousarray(a.T).T
+    return a
